@@ -199,23 +199,117 @@ def generate(method, repo, maxorder=None):
     lines.append("fn main() {}")
     return "\n".join(lines) + "\n", lemmas, {"stages": S, "order": P, "D_digits": len(str(D)), "consts": {k: str(v[0]) for k, v in consts.items()}}
 
-def run(method, repo="/repo", maxorder=None, build=None, timeout=900):
+IMPLS = {"rk4": "RK4", "rk23": "RK23", "dopri5": "DOPRI5", "dop853": "DOP853"}
+DENSE_ORDER = {"rk4": 3, "rk23": 3, "dopri5": 4, "dop853": 7}     # q of property C07: the interpolant's error is O(h^(q+1))
+
+def extract(method, repo):
+    """tableau and continuous weights recovered from the code by symbolic execution (coef/symstep.py)"""
+    from coef import symstep
+    r = symstep.analyse(repo, FILES[method], IMPLS[method])
+    S = len(r["stages"])
+    A = {}; c = {}
+    for i, (_, cp, row) in enumerate(r["stages"], 1):
+        if set(cp) - {(1, 0)}: raise core.Undecided("stage %d: abscissa is not x + c*h" % i)
+        c[i] = cp.get((1, 0), Fraction(0))
+        if row.get("Y") != {(0, 0): Fraction(1)}: raise core.Undecided("stage %d: its argument is not y + h*(...)" % i)
+        for sym, pol in row.items():
+            if sym == "Y": continue
+            j = int(sym[1:])
+            if set(pol) - {(1, 0)} or j >= i: raise core.Undecided("stage %d: coefficient of %s is not a constant times h (explicit method expected)" % (i, sym))
+            A[(i, j)] = pol[(1, 0)]
+    b = {}
+    for sym, pol in r["ynew"].items():
+        if sym == "Y":
+            if pol != {(0, 0): Fraction(1)}: raise core.Undecided("new state: coefficient of y is not 1")
+            continue
+        if set(pol) - {(1, 0)}: raise core.Undecided("new state: coefficient of %s is not a constant times h" % sym)
+        b[int(sym[1:])] = pol[(1, 0)]
+    bt = {}      # stage -> {theta power: coefficient}
+    ycoef = r["u"].get("Y", {})
+    for sym, pol in r["u"].items():
+        if sym == "Y": continue
+        for (hd, td), v in pol.items():
+            if hd != 1: raise core.Undecided("interpolant: coefficient of %s is not h times a polynomial in theta" % sym)
+            bt.setdefault(int(sym[1:]), {})[td] = v
+    return S, A, b, c, bt, ycoef
+
+@lru_cache(None)
+def generate_dense(method, repo):
+    S, A, b, c, bt, ycoef = extract(method, repo)
+    q = DENSE_ORDER[method]
+    allv = list(A.values()) + [v for d in bt.values() for v in d.values()]
+    D = 1
+    for v in allv:
+        D = D * v.denominator // math.gcd(D, v.denominator)
+    lines = ["use vstd::prelude::*;", "verus! {", "pub open spec fn D() -> int { %dint }" % D,
+             "pub open spec fn pw(k: nat) -> int decreases k { if k == 0 { 1 } else { D() * pw((k - 1) as nat) } }"]
+    lemmas = []
+    for (i, j), v in sorted(A.items()):
+        if v != 0: lines.append("pub open spec fn a_%d_%d() -> int { %dint }" % (i, j, int(v * D)))
+    M = max([m for d in bt.values() for m in d] + [0])
+    for i, d in sorted(bt.items()):
+        for m, v in sorted(d.items()):
+            if v != 0: lines.append("pub open spec fn bt_%d_%d() -> int { %dint }" % (i, m, int(v * D)))
+    ids = {}; udone = set()
+    def phi(t):
+        if t in ids: return ids[t]
+        subs = [phi(s) for s in t]
+        k = len(ids); ids[t] = k
+        for i in range(1, S + 1):
+            for sid in subs:
+                if (sid, i) in udone: continue
+                udone.add((sid, i))
+                js = [j for j in range(1, i) if A.get((i, j), 0) != 0]
+                expr = " + ".join("a_%d_%d() * phi_%d_%d()" % (i, j, sid, j) for j in js) if js else "0int"
+                lines.append("#[verifier::memoize] pub open spec fn u_%d_%d() -> int { %s }" % (sid, i, expr))
+            expr = " * ".join("u_%d_%d()" % (sid, i) for sid in subs) if t else "1int"
+            lines.append("#[verifier::memoize] pub open spec fn phi_%d_%d() -> int { %s }" % (k, i, expr))
+        return k
+    TOL = 10 ** 13
+    # the coefficient of y in the interpolant is identically 1
+    ok = (ycoef == {(0, 0): Fraction(1)})
+    lines.append("proof fn dense_y_weight() ensures %s { assert(%s) by (compute_only); }" % (("1int == 1int", "1int == 1int") if ok else ("false", "1int == 2int")))
+    lemmas.append(("dense_y_weight", "the interpolant is y_old plus h times a combination of stages (weight of y_old is identically 1)"))
+    n = 0
+    for o in range(1, q + 1):
+        for t in trees(o):
+            k = phi(t); g = gamma(t)
+            for m in range(0, M + 1):
+                terms = ["bt_%d_%d() * phi_%d_%d()" % (i, m, k, i) for i in sorted(bt) if bt[i].get(m, 0) != 0]
+                expr = " + ".join(terms) if terms else "0int"
+                name = "dense_o%d_%d_th%d" % (o, n, m)
+                if m == o:
+                    cond = "(%s) * %d * %d - pw(%d) * %d < pw(%d) && pw(%d) * %d - (%s) * %d * %d < pw(%d)" % (expr, g, TOL, o, TOL, o, o, TOL, expr, g, TOL, o)
+                    what = "1/%d" % g
+                else:
+                    cond = "(%s) * %d < pw(%d) && 0 - (%s) * %d < pw(%d)" % (expr, TOL, o, expr, TOL, o)
+                    what = "0"
+                lines.append("proof fn %s() ensures %s { assert(%s) by (compute_only); }" % (name, cond, cond))
+                lemmas.append((name, "continuous order %d, tree %s, coefficient of theta^%d: sum_i b_i^(%d) Phi_i = %s" % (o, show(t), m, m, what)))
+            n += 1
+    lines.append("} // verus!")
+    lines.append("fn main() {}")
+    return "\n".join(lines) + "\n", lemmas, {"stages": S, "dense_order": q, "theta_degree": M, "D_digits": len(str(D))}
+
+def run(method, repo="/repo", maxorder=None, build=None, timeout=900, kind="order"):
     build = build or os.path.join(ROOT, "build")
     os.makedirs(build, exist_ok=True)
+    ename = ("coef_" if kind == "order" else "coef_dense_") + method
+    tags = ["C02"] if kind == "order" else ["C07", "C06"]
     try:
-        text, lemmas, info = generate(method, repo, maxorder)
+        text, lemmas, info = generate(method, repo, maxorder) if kind == "order" else generate_dense(method, repo)
     except core.Undecided as e:
-        return {"name": "coef_" + method, "status": "undecided", "reason": str(e)}
+        return {"name": ename, "status": "undecided", "reason": str(e)}
     except Exception as e:
-        return {"name": "coef_" + method, "status": "undecided", "reason": "generator error: %r" % (e,)}
-    path = os.path.join(build, "coef_%s.rs" % method)
+        return {"name": ename, "status": "undecided", "reason": "generator error: %r" % (e,)}
+    path = os.path.join(build, "%s.rs" % ename)
     open(path, "w").write(text)
     t0 = time.time()
     try:
         p = subprocess.run(["verus", path, "--multiple-errors", "400", "--error-format=json", "--output-json", "--time", "--rlimit", "100"],
                            capture_output=True, text=True, timeout=timeout, cwd=build)
     except subprocess.TimeoutExpired:
-        return {"name": "coef_" + method, "status": "undecided", "reason": "verus timeout"}
+        return {"name": ename, "status": "undecided", "reason": "verus timeout"}
     wall = time.time() - t0
     src_lines = text.split("\n")
     failed = set(); other = []
@@ -237,22 +331,26 @@ def run(method, repo="/repo", maxorder=None, build=None, timeout=900):
     # vacuity guard: the evaluator must reject a false computation over the same definitions
     vtext = text.replace("} // verus!", "proof fn vacuity_probe() ensures false { assert(D() == 0) by (compute_only); }\n} // verus!")
     only = [l for l in vtext.split("\n") if not l.startswith("proof fn ") or l.startswith("proof fn vacuity_probe")]
-    vpath = os.path.join(build, "coef_%s_vacuity.rs" % method)
+    vpath = os.path.join(build, "%s_vacuity.rs" % ename)
     open(vpath, "w").write("\n".join(only) + "\n")
     pv = subprocess.run(["verus", vpath], capture_output=True, text=True, timeout=300, cwd=build)
     if "evaluates to false" not in pv.stderr and "simplifies to false" not in pv.stderr:
-        return {"name": "coef_" + method, "status": "undecided", "reason": "vacuity probe was not rejected: " + pv.stderr[-300:], "backend": "verus-compute"}
+        return {"name": ename, "status": "undecided", "reason": "vacuity probe was not rejected: " + pv.stderr[-300:], "backend": "verus-compute"}
     if other and not failed:
-        return {"name": "coef_" + method, "status": "undecided", "reason": "verifier error: " + other[0], "backend": "verus-compute"}
-    viol = [{"clause": "coef.%s.%s" % (method, n), "clauses": ["coef.%s.%s" % (method, n)], "message": "order condition not satisfied: " + desc.get(n, n),
-             "rendered": "lemma %s (%s) of build/coef_%s.rs was rejected by the evaluator; constants read from %s" % (n, desc.get(n, n), method, FILES[method]),
-             "code": [FILES[method]], "tags": ["C02"]} for n in sorted(failed) if n in desc]
+        return {"name": ename, "status": "undecided", "reason": "verifier error: " + other[0], "backend": "verus-compute"}
+    cl = "coef" if kind == "order" else "dense"
+    viol = [{"clause": "%s.%s.%s" % (cl, method, n), "clauses": ["%s.%s.%s" % (cl, method, n)], "message": "order condition not satisfied: " + desc.get(n, n),
+             "rendered": "lemma %s (%s) of build/%s.rs was rejected by the evaluator; constants and formulas read from %s" % (n, desc.get(n, n), ename, FILES[method]),
+             "code": [FILES[method]], "tags": tags} for n in sorted(failed) if n in desc]
     first = min([names.index(n) for n in failed if n in names], default=len(names))
-    return {"name": "coef_" + method, "status": "failed" if viol else "ok", "obligations": len(names), "discharged": first if viol else len(names),
+    return {"name": ename, "status": "failed" if viol else "ok", "obligations": len(names), "discharged": first if viol else len(names),
             "note": "the evaluator stops at the first rejected lemma; later lemmas are not counted as discharged" if viol else "",
             "violations": viol, "backend": "verus-compute", "wall_s": round(wall, 1),
             "samples": [{"lemma": n, "states": d} for (n, d) in lemmas[:2] + lemmas[-2:]], "info": {k: v for k, v in info.items() if k != "consts"}}
 
 if __name__ == "__main__":
-    r = run(sys.argv[1], maxorder=int(sys.argv[2]) if len(sys.argv) > 2 else None)
+    if len(sys.argv) > 2 and sys.argv[2] == "dense":
+        r = run(sys.argv[1], kind="dense")
+    else:
+        r = run(sys.argv[1], maxorder=int(sys.argv[2]) if len(sys.argv) > 2 else None)
     print(json.dumps({k: v for k, v in r.items() if k != "violations"}, indent=1)); print([v["clause"] for v in r.get("violations", [])][:10])
